@@ -9,6 +9,7 @@ from ..engine import site_str
 from ..ir import AnalysisBroken, walk, strip
 from ..origin import Origins
 from .common import insts, paths_of, is_regfield, regfield
+from . import routing
 
 TEXT = {
     "C01.writers": "who-may-write: compoActive only by C_::{deepEnter,deepReenter,deepExit,deepChangeToRequested} and RegistryT::clear; "
@@ -26,7 +27,8 @@ TEXT = {
     "C01.defaults": "an anonymous head behaves like a headed state that overrides nothing: S_<empty>::wrapSelect returns what S_<headed>::wrapSelect "
                     "returns once Head::select folds to the A_ default (0)",
     "C01.descend": "every C_ resolution function (deepRequest<Kind>, deepRequestChange<Strategy>, deepReportChange<Strategy>, deepReportUtilize, "
-                   "deepReportRandomize) descends into its sub-states (a SubStates::wideRequest*/wideReport* call) on every path",
+                   "deepReportRandomize) descends on every path into the SubStates member of the frozen table (rules/routing.py) and hands down "
+                   "the prong it just stored in compoRequested",
 }
 
 MIN_INSTANCES = {"C01.writers": 5, "C01.exit-resets": 1, "C01.enter-sets": 1, "C01.switch-pairs": 2, "C01.ortho-all": 30,
@@ -69,7 +71,7 @@ def check(ctx, F):
     check_ortho_all(ctx, F)
     check_no_invalid(ctx, F)
     check_defaults(ctx, F)
-    check_descend(ctx, F)
+    routing.check_descend(ctx, F, "C01.descend")
 
 
 def check_writers(ctx, F, E):
@@ -303,6 +305,16 @@ def check_no_invalid(ctx, F):
                               {"line": a.line, "assigned_in": site, "atom": [a.kind, str(a.detail)]})
         if n:
             ctx.instance("C01.no-invalid", site, {"function": site, "loc": F.floc(fid), "assignments": n})
+    # the stored prong must denote one of this region's *own* sub-states
+    for fid, (site, kind, n, atoms) in routing.sources(ctx, F).items():
+        if not n:
+            continue
+        ok = kind in ("first", "resumable", "select", "random") or kind.startswith("utility:")
+        ctx.instance("C01.no-invalid", site + "/source", {"function": site, "loc": F.floc(fid), "source": kind})
+        if not ok:
+            ctx.violation("C01.no-invalid", site + "/source", "%s (%s)" % (site, F.floc(fid)),
+                          "the prong stored into compoRequested comes from `%s`, which is not a prong of this region's own sub-states "
+                          "(literal first, guarded resumable, select(), SubStates report, random walk)" % kind, {"source": kind})
 
 
 DEFAULT_FUNCS = ("wrapSelect",)   # the utility/rank defaults are decided under C12.defaults (same machinery)
